@@ -9,15 +9,17 @@
     the original.
 
     What is proved: the codec of every object kind inverts (component by component, under the
-    validity rules of C12's [glyph_rules]); the exact condition under which lib text and notes
-    survive (finding F3); code-point order; independence of the write options.
-    What is NOT proved (C02_roundtrip would need it): the composition over the whole glyph —
-    value-tracking versions of the outline / glyph-body loops of the reader, the dictionary
-    algebra of dump_object_libs / load_object_libs / sort_keys_rec, and the read-back of the
-    numeric, data and date leaves of the lib.  The composition is compared with the
+    validity rules of C12's [glyph_rules]); the composite round trip for every valid glyph that
+    carries no lib ([C02_roundtrip_partial]: name, advance, code points in order, note, image,
+    every contour, point, component, anchor and guideline with names, identifiers, colours and
+    transforms); the exact condition under which lib text and notes survive (finding F3);
+    independence of the write options.
+    What is NOT proved: the composite round trip for glyphs WITH a glyph lib or object libs — it
+    needs the dictionary algebra of dump_object_libs / load_object_libs / sort_keys_rec and the
+    read-back of the numeric, data and date leaves of the lib.  That part is compared with the
     implementation on every generated glyph by the correspondence run instead. *)
 Require Import Norad.Model.GlifSpec Norad.Model.GlifDen Norad.Model.GlifEncode.
-Require Import Norad.Proofs.GlifParseP Norad.Proofs.GlifEncodeP.
+Require Import Norad.Proofs.GlifParseP Norad.Proofs.GlifEncodeP Norad.Proofs.GlifRoundtripP.
 Open Scope N_scope.
 
 (** ---------- lib text and notes: the exact extent of finding F3 ---------- *)
@@ -107,6 +109,55 @@ Section Codecs.
   Proof. exact (image_roundtrip pf ff ff3 close3 H_ff H_ff3). Qed.
 End Codecs.
 
+(** ---------- the composite round trip, for glyphs without libs ---------- *)
+(** Every glyph that obeys the glyph rules of C12, holds finite numbers, a note that is trimmed and
+    not empty (outside F3), no empty contour (part of [contour_rules], outside class empty-contour)
+    and no lib is encoded to a tree that the reader accepts, and the glyph read back agrees in
+    every field: numbers exactly (a zero loses its sign), colours to three decimals, object libs
+    absent.  PARTIAL: glyphs with a glyph lib or object libs are not covered (see the header). *)
+Theorem C02_roundtrip_partial : forall pf ff ff3 fi fh o close3,
+  (forall x, fl_finite x = true -> pf (ff x) = Some x) ->
+  (forall x, unit_range x = true ->
+     ~ In 44 (ff3 x) /\ exists y, pf (chan ff3 x) = Some y /\ unit_range y = true /\ close3 x y) ->
+  (forall c, is_scalar c = true -> parse_hex (fh c) = Some c) ->
+  forall g, glyph_rules g -> glyph_finite g -> lib_free g -> note_survives (gnote g) = true ->
+  exists t g',
+    encode_glif ff ff3 fi fh o g = Ok t /\ parse_glif pf (written_doc t) = Ok g' /\
+    gname g' = gname g /\ gwidth g' = zero_norm (gwidth g) /\ gheight g' = zero_norm (gheight g) /\
+    gcps g' = gcps g /\ gnote g' = gnote g /\ oimage_rel close3 (gimage g) (gimage g') /\
+    Forall2 (guide_rel close3) (gguides g) (gguides g') /\ Forall2 (anchor_rel close3) (ganchors g) (ganchors g') /\
+    gcomps g' = map comp_written (gcomps g) /\ gcontours g' = map contour_written (gcontours g) /\
+    glib g' = [].
+Proof. exact roundtrip_libfree. Qed.
+
+(** non-vacuity: a glyph with code points, a note, an anchor, a component and a contour that meets
+    every hypothesis of the theorem *)
+Definition g_sample : glyph :=
+  mkGlyph [97] (FFin false 125 2) f0 [65; 66] (Some [104; 105]) None []
+    [mkAnchor f1 f0 (Some [116]) (Some (f1, f0, f0, f1)) (Some [97; 49]) None]
+    [mkComp [98] t_identity (Some [107; 49]) None]
+    [mkContour [mkPoint f0 f1 Line false (Some [97]) (Some [112]) None;
+                mkPoint f1 f0 Off false None None None;
+                mkPoint f1 f1 QCurve true None None None] (Some [99]) None]
+    [].
+Example C02_roundtrip_hypotheses_satisfiable :
+  glyph_rules g_sample /\ glyph_finite g_sample /\ lib_free g_sample /\ note_survives (gnote g_sample) = true.
+Proof.
+  split; [|split; [|split; [|reflexivity]]].
+  - unfold glyph_rules, g_sample; cbn [gname gcps gimage gguides ganchors gcomps gcontours].
+    split; [reflexivity|]. split; [repeat constructor; cbn; intuition discriminate|].
+    split; [repeat constructor|]. split; [exact I|]. split; [constructor|].
+    split; [constructor; [|constructor]; unfold anchor_rules, lib_needs_id; cbn; repeat split; congruence|].
+    split; [constructor; [|constructor]; unfold comp_rules, lib_needs_id; cbn; repeat split; congruence|].
+    split.
+    + constructor; [|constructor]. unfold contour_rules, lib_needs_id; cbn [cpoints cid clib].
+      split; [discriminate|]. split; [apply Norad.Proofs.ContourP.legalb_spec; vm_compute; reflexivity|].
+      split; [repeat constructor; cbn; congruence|]. split; [reflexivity|congruence].
+    + apply Norad.Proofs.GlifSpecP.nodupb_spec. vm_compute. reflexivity.
+  - unfold glyph_finite, g_sample, contour_finite, transform_finite; cbn. repeat split; repeat constructor.
+  - unfold lib_free, g_sample; cbn. repeat split; repeat constructor.
+Qed.
+
 (** ---------- the write options ---------- *)
 (** The options reach the tree only through the lib text: when the dictionary handed to the
     plist printer holds no line break, every option set yields the same tree. *)
@@ -134,16 +185,11 @@ Example C02_F3_lib_witness :
   end /\
   c02_f3 (mkOpts 9 1 false) g_lib_multiline = true /\ c02_f3 (mkOpts 9 0 false) g_lib_multiline = false.
 Proof. vm_compute. repeat split; reflexivity. Qed.
-(** an empty contour is written and then dropped by the reader; a subnormal advance is not written *)
+(** an empty contour is written and then dropped by the reader *)
 Example C02_empty_contour_witness :
   let g := mkGlyph [97] f0 f0 [] None None [] [] [] [mkContour [] None None] [] in
   match reread (mkOpts 9 1 false) g with Ok g' => gcontours g' = [] | _ => False end /\
   c02_empty_contour g = true.
-Proof. vm_compute. split; reflexivity. Qed.
-Example C02_advance_subnormal_witness :
-  let g := mkGlyph [97] (FFin false 1 (-1070)) f0 [] None None [] [] [] [] [] in
-  match reread (mkOpts 9 1 false) g with Ok g' => gwidth g' = f0 | _ => False end /\
-  c02_advance_subnormal g = true.
 Proof. vm_compute. split; reflexivity. Qed.
 (** non-vacuity of the codec theorems: a contour that satisfies their hypotheses *)
 Example C02_contour_hypotheses_satisfiable :
